@@ -529,10 +529,18 @@ class I:
         return bool(B(self.t != 0))
 
     def __index__(self):
-        return CUR.concretize(self.t)
+        try:
+            return CUR.concretize(self.t)
+        except Abort:
+            CUR._abort_flag = True      # C-level callers (numpy indexing) turn the Abort into IndexError/TypeError
+            raise
 
     def __int__(self):
-        return CUR.concretize(self.t)
+        try:
+            return CUR.concretize(self.t)
+        except Abort:
+            CUR._abort_flag = True
+            raise
 
     def __float__(self):
         raise HarnessError('float() of a symbolic int')
@@ -792,6 +800,7 @@ class Explorer:
             CUR = self
             MATH.reset()
             self.path_assumed = 0
+            self._abort_flag = False
             try:
                 r = fn(self)
                 results.append(r)
@@ -803,7 +812,9 @@ class Explorer:
             except Exception:
                 # an exception escaping the harness on a path that contains a branch side whose feasibility the solver
                 # could not settle within its budget: the path is cut and counted, not judged
-                if self.path_assumed > 0:
+                if self._abort_flag:
+                    self.stats.aborted += 1     # an Abort raised inside a C-level conversion, re-raised as another type
+                elif self.path_assumed > 0:
                     self.stats.cut_unsettled += 1
                 else:
                     raise
@@ -1619,6 +1630,8 @@ class _Math:
         return R(seen[key][1])
 
     def sqrt(self, x):
+        if isinstance(x, D):
+            return D(z3.fpSqrt(RNE, x.t))
         if not is_sym(x):
             return math.sqrt(x)
 
@@ -1732,11 +1745,15 @@ class _Math:
         return R(app)
 
     def fabs(self, x):
+        if isinstance(x, D):
+            return abs(x)
         if not is_sym(x):
             return math.fabs(x)
         return abs(x) if isinstance(x, R) else R(z3.ToReal(abs(x).t))
 
     def floor(self, x):
+        if isinstance(x, D):
+            return D(z3.fpRoundToIntegral(z3.RTN(), x.t))
         if not is_sym(x):
             return float(math.floor(x))
         if isinstance(x, I):
@@ -1744,6 +1761,8 @@ class _Math:
         return R(z3.ToReal(z3.ToInt(x.t)))
 
     def ceil(self, x):
+        if isinstance(x, D):
+            return D(z3.fpRoundToIntegral(z3.RTP(), x.t))
         if not is_sym(x):
             return float(math.ceil(x))
         if isinstance(x, I):
@@ -1751,6 +1770,8 @@ class _Math:
         return R(-z3.ToReal(z3.ToInt(-x.t)))
 
     def trunc(self, x):
+        if isinstance(x, D):
+            return D(z3.fpRoundToIntegral(z3.RTZ(), x.t))
         if not is_sym(x):
             return float(math.trunc(x))
         return R(z3.ToReal(trunc_to_int(x).t))
